@@ -31,6 +31,44 @@ func beBytes(v *big.Int, n int) []byte {
 	return b
 }
 
+// limbBoundary: values on both sides of q that differ from q in one machine word (64- and 32-bit words) with the
+// lower words all zero, all ones or equal to q's - the inputs that tell a word-by-word comparison with q apart
+// from one that forgets a word. Returned as nb-byte big-endian strings; the caller's oracle decides which are < q.
+func limbBoundary(q *big.Int, nb int) (above, below [][]byte) {
+	seenA, seenB := map[string]bool{}, map[string]bool{}
+	for _, w := range []uint{64, 32} {
+		nw := (uint(nb)*8 + w - 1) / w
+		for i := uint(0); i < nw; i++ {
+			lowMask := new(big.Int).Sub(new(big.Int).Lsh(big.NewInt(1), w*i), big.NewInt(1))
+			hi := new(big.Int).AndNot(q, lowMask) // q with the words below i cleared
+			unit := new(big.Int).Lsh(big.NewInt(1), w*i)
+			for _, low := range []*big.Int{new(big.Int), lowMask, new(big.Int).And(q, lowMask), big.NewInt(1)} {
+				if low.Cmp(lowMask) > 0 {
+					continue
+				}
+				for _, d := range []int64{0, 1, -1, 2} {
+					v := new(big.Int).Add(hi, new(big.Int).Mul(unit, big.NewInt(d)))
+					v.Or(v, low)
+					if v.Sign() < 0 || v.BitLen() > 8*nb {
+						continue
+					}
+					b := beBytes(v, nb)
+					if v.Cmp(q) >= 0 {
+						if !seenA[string(b)] {
+							seenA[string(b)] = true
+							above = append(above, b)
+						}
+					} else if !seenB[string(b)] {
+						seenB[string(b)] = true
+						below = append(below, b)
+					}
+				}
+			}
+		}
+	}
+	return
+}
+
 func rev(b []byte) []byte {
 	r := make([]byte, len(b))
 	for i := range b {
@@ -358,9 +396,15 @@ func run[E any, P fields.Ptr[E]](c *mon.Ctx, f *fields.Field[E, P]) {
 		qb := beBytes(q, nb)
 		qm1 := beBytes(new(big.Int).Sub(q, one), nb)
 		qp1 := beBytes(new(big.Int).Add(q, one), nb)
+		lbAbove, lbBelow := limbBoundary(q, nb)
+		c.AddExtra("limb_boundary_values", int64(len(lbAbove)+len(lbBelow)))
 		for l := 0; l <= 2*nb+1; l++ {
 			var cands [][]byte
 			cands = append(cands, make([]byte, l), bytes.Repeat([]byte{0xff}, l), rng.Bytes(l), rng.Bytes(l))
+			if l == nb {
+				cands = append(cands, lbAbove...)
+				cands = append(cands, lbBelow...)
+			}
 			for _, src := range [][]byte{qb, qm1, qp1} {
 				if l >= nb {
 					cands = append(cands, append(make([]byte, l-nb), src...)) // left-padded
@@ -431,6 +475,7 @@ func run[E any, P fields.Ptr[E]](c *mon.Ctx, f *fields.Field[E, P]) {
 	}
 	qb := beBytes(q, nb)
 	ff := bytes.Repeat([]byte{0xff}, nb)
+	lbAboveV, _ := limbBoundary(q, nb)
 	for _, n := range lens {
 		c.Current(fmt.Sprintf("%s vector n=%d", N, n))
 		vs := make([]*big.Int, n)
@@ -520,7 +565,11 @@ func run[E any, P fields.Ptr[E]](c *mon.Ctx, f *fields.Field[E, P]) {
 			positions = []int{0, 1, n / 2, n - 2, n - 1, rng.Intn(n)}
 		}
 		for _, pos := range positions {
-			for bi, badv := range [][]byte{qb, ff} {
+			bads := [][]byte{qb, ff}
+			if len(lbAboveV) > 0 {
+				bads = append(bads, lbAboveV[(pos+n)%len(lbAboveV)])
+			}
+			for bi, badv := range bads {
 				if bi == 1 && pos%3 != 0 {
 					continue
 				}
